@@ -10,6 +10,10 @@ def check_write_oracle(ctx, op, inp, trimmed, out):
     """direct oracle on the real code's answer to `rpu.write` / `nalu.write`"""
     if out == "err" or out == "ok werr":
         return "rejected" if out == "err" else "write-error"
+    if out.startswith("panic:") and "bitstream_io_reader.rs" in out:
+        # the parser did not accept the input (third-party exp-Golomb reader panic: C08's known findings);
+        # C01 speaks about accepted inputs only
+        return "parser-panic (outside C01: not accepted; see C08)"
     if not out.startswith("ok "):
         ctx.oracle_fail({"op": op, "input": hx(inp), "observed": out, "expected": "ok <same bytes> | write error",
                          "shape": "panic-or-abort"})
@@ -141,7 +145,20 @@ def run(ctx):
         nal = npfx + esc
         lines.append("nalu.write " + hx(nal)); meta.append(("nalu.write", nal, esc))
         ctx.count("kind=" + kind)
-    mo, io_ = ctx.correspond("rpu.write/nalu.write/rpu.json", lines, canon=rpucases.canon_json_line)
+    def canon(line):
+        return "panic" if line.startswith("panic:") else rpucases.canon_json_line(line)
+    mo, io_ = ctx.correspond("rpu.write/nalu.write/rpu.json", lines, canon=canon)
+    # model-only: which accepted inputs give a parse result inside the hypothesis (RpuWfB) of the write->parse
+    # theorem C03.write_parse_sound (for those, the kernel-checked theorem says the unmodified write re-parses to
+    # the same RPU); the first failing conjunct is counted otherwise
+    wl = ["rpu.wf " + l.split(" ")[1] for l in lines if l.startswith("rpu.write ")]
+    wo, _, _ = common.run_lines_sharded(common.MODEL_EXE, wl)
+    for l, o in zip(wl, wo):
+        if o.startswith("wf="):
+            f = dict(x.split("=") for x in o.split(" "))
+            ctx.count("parsed RPU inside theorem hypothesis" if f["wf"] == "1" else "parsed RPU outside theorem hypothesis (%s)" % f["why"])
+            if f["wf"] == "1" and f["write"] == "ok" and f["reparse"] != "same":
+                ctx.disagree("theorem instance (write_parse_sound) on the executable model", l[:3000], "reparse=same", o)
     for (op, inp, trimmed), o in zip(meta, io_):
         if op == "rpu.json":
             continue
